@@ -271,8 +271,10 @@ def meaning : Ex R → Option (Nat × Nat × MatF R)
   | divs x s => do
       let (r, c, a) ← meaning x
       some (r, c, smulM s.inv a)
-  | sdiv _ _ => none     -- c / A = c · A⁻¹ is not a ring expression: no meaning here.  The harness (c03.py `sdiv_oracle`)
-                         -- computes c · A⁻¹ exactly and substitutes it as a leaf before asking for the meaning
+  | sdiv _ _ => none     -- c / A = c · A⁻¹ is not a ring expression: no meaning HERE (so `meaning (sdiv ..) = none` is
+                         -- definitional).  Its meaning is relational: `Ex.IsScalarOverOp` (Lemmas/ExprSdiv.lean;
+                         -- `C03_sdiv_meaning`: the code's `c⁻¹ · A` has it iff `A · A = c² · 1`).  The harness (c03.py
+                         -- `sdiv_oracle`) computes c · A⁻¹ exactly and substitutes it as a leaf before asking for the meaning
   | addz x => meaning x
   | matmul x y => do
       let (r, c, a) ← meaning x
